@@ -36,6 +36,7 @@ PARTS = ["bfs", "sequences", "machine"]
 
 KEYS = ["a", "A", "b", "B", "layers", "Layers"]
 VALUES = [1, "x", [1], {"k": 1}]
+PROBE_KEYS = ["Classes", "styles", "SYMBOLS", "labels", "outputformats", "features", "scaletokens", "composites", "joins", "layer", "style"]
 OBJECT_LIST_KEYS = {"layers", "classes", "styles", "symbols", "labels", "outputformats", "features", "scaletokens",
                     "composites", "joins"}
 
@@ -107,7 +108,7 @@ def ops_alphabet(keys=KEYS, values=VALUES):
         for v in values:
             ops += [("setitem", k, v), ("setdefault_v", k, v)]
     # every object-list key of the documented default rule (and one near miss that is not a list key)
-    for lk in ["Classes", "styles", "SYMBOLS", "labels", "outputformats", "features", "scaletokens", "composites", "joins", "layer", "style"]:
+    for lk in PROBE_KEYS:
         ops += [("getitem", lk)]
     ops += [("update_map", (("A", 2), ("c", 3))), ("update_map", (("b", 5), ("B", 6))), ("update_pairs", (("Layers", (7,)), ("a", 8))),
             ("update_kwargs", (("A", 9),)), ("update_both", (("a", 1),), (("A", 2),)), ("update_empty",),
@@ -382,7 +383,8 @@ def bfs(acc: Acc, tier, shard, nshards):
                                            "message": f"in state {m.items()!r} (factory={m.factory}) {op!r}: {msg}", "case": case,
                                            "search": "bfs", "shard": 0, "round": 0, "seed": env.verif_seed(), "tier": tier})
                     continue
-                if len(mm.d) <= max_keys:
+                if len(mm.d) <= max_keys and not (op[0] == "getitem" and op[1] in PROBE_KEYS):
+                    # (the extra list-key reads are probes: checked in every state, not used to grow the state space)
                     f = freeze(mm)
                     if f not in seen:
                         seen[f] = mm
@@ -407,10 +409,11 @@ def _dedupe(acc):
 def sequences(acc: Acc, tier, shard, nshards):
     L = TIERS[tier]["seq_len"]
     ops = ops_alphabet()
-    firsts = [o for i, o in enumerate(ops) if i % nshards == shard]
+    base = [o for o in ops if not (o[0] == "getitem" and o[1] in PROBE_KEYS)]
+    firsts = [o for i, o in enumerate(base) if i % nshards == shard]
     for factory in (False, True):
         for first in firsts:
-            for rest in itertools.product(ops, repeat=L - 1):
+            for rest in itertools.product(*([base] * (L - 2) + [ops])) if L >= 2 else [()]:
                 seq = (first,) + rest
                 m = Model(factory)
                 real = make_real(m)
